@@ -1,4 +1,5 @@
 import Model.QuantBins
+import Proofs.Quant
 import Properties.C01
 import Properties.C02
 /-! C03 — All model data structures are observationally equivalent.
@@ -34,21 +35,27 @@ theorem trie_mark_loss_harmless (a : Arpa) (wf : WellFormed a) (unmarked : List 
 
 /-! ### quantisation (pre-observation D) -/
 
-/-- The arithmetic heart of "lossless by *count*": with at most as many values as bins, every
-equal-population bin holds at most one value, so the centre of a non-empty bin is that value. -/
-theorem quant_bin_singleton (n bins i : Nat) (hb : 0 < bins) (hn : n ≤ bins) :
-    binHi n bins i - binLo n bins i ≤ 1 := by
-  unfold binHi binLo
-  have h1 : n * (i + 1) ≤ n * i + bins := by rw [Nat.mul_succ]; omega
-  have h2 := Nat.div_le_div_right (c := bins) h1
-  rw [Nat.add_div_right _ hb] at h2
-  omega
+/-- **`quant_exact` — lossless by count.**  If the values of an order, counted with multiplicity, are no more than
+the bins, every value is decoded exactly (each equal-population bin holds at most one value; the encoder finds
+the first centre equal to the value). Unbounded: any sorted list, any number of bins. -/
+theorem quant_exact (vals : List Rat) (bins : Nat) (hsorted : vals.Pairwise (· ≤ ·)) (hn : vals.length ≤ bins)
+    (v : Rat) (hv : v ∈ vals) : roundTrip vals bins v = some v :=
+  count_fits_lossless vals bins hsorted hn v hv
 
-/-- instance of the lossless clause (count ≤ bins): 3 values, 4 bins — every value round-trips exactly.
-(The general statement `vals.length ≤ bins → ∀ v ∈ vals, roundTrip vals bins v = some v` is not proved;
-`quant_bin_singleton` is its arithmetic core.) -/
-theorem quant_lossless_by_count_partial :
-    [-3/4, -1/2, -1/4].all (fun v => roundTrip [-3/4, -1/2, -1/4] 4 v == some v) = true := by decide +kernel
+/-- **Equal multiplicity.**  The property's own wording (“no more distinct values than bins”) *is* true of the code
+when every distinct value occurs equally often: `k` distinct values × `m` copies each with `k` bins give
+homogeneous bins whose mean is the value itself. (In float32/double the sum of `m < 2^29` copies of a float is
+exact, which the `equalmult` stream checks bit-exactly on the real code.) -/
+theorem quant_equal_multiplicity_lossless (m : Nat) (hm : 0 < m) (ds : List Rat) (hsorted : ds.Pairwise (· < ·))
+    (v : Rat) (hv : v ∈ ds) : roundTrip (ds.flatMap (List.replicate m)) ds.length v = some v :=
+  equal_multiplicity_lossless m hm ds hsorted v hv
+
+/-- each equal-population bin holds at most one value when count ≤ bins -/
+theorem quant_bin_singleton (n bins i : Nat) (hb : 0 < bins) (hn : n ≤ bins) :
+    binHi n bins i - binLo n bins i ≤ 1 := bin_width_le_one n bins i hb hn
+
+example : [-3/4, -1/2, -1/4].all (fun v => roundTrip [-3/4, -1/2, -1/4] 4 v == some v) = true := by decide +kernel
+example : roundTrip ([-3/4, -1/4].flatMap (List.replicate 3)) 2 (-3/4) = some (-3/4) := by decide +kernel
 
 /-- The property's wording (“no order has more *distinct* values than bins”) is **false** for the code as it is:
 two distinct values, two bins, but four values — `-3/4` decodes to the mean `-1/2`.  Replayed on
